@@ -99,6 +99,10 @@ def r8_1(ctx: Ctx) -> None:
         dom = g.dominators()
         ok_dec = bool(dec) and all(any(d.id in dom.get(x.id, set()) for d in dec) for x in deliver)
         p = g.path_avoiding(deliver, _ttl_ok_edge)
+        # ... and the test looks at the TTL *after* this hop's decrement (testing first lets a frame with TTL 1 through at TTL 0)
+        tests = {e.src.id: e.src for e in g.edges() if _ttl_ok_edge(e) and isinstance(e.label[1], ast.Compare)}
+        ok_order = all(any(d.id in dom.get(tid, set()) for d in dec) for tid in tests)
+        ok_dec = ok_dec and ok_order
         ctx.record("R8.1", ctx.key(f, "ttl checked before delivery"), f.loc(deliver[0].ast), ok_dec and p is None,
                    f"{c.short}: decrement_ttl() dominates delivery and delivery lies behind the ttl>=1 edge" if ok_dec and p is None else
                    f"{c.short}: a frame with exhausted TTL can be handed to the node", path_text(p))
@@ -111,6 +115,8 @@ def r8_1(ctx: Ctx) -> None:
         dom = g.dominators()
         ok_dec = bool(dec) and all(any(d.id in dom.get(x.id, set()) for d in dec) for x in send)
         p = g.path_avoiding(send, _ttl_ok_edge)
+        tests = {e.src.id: e.src for e in g.edges() if _ttl_ok_edge(e) and isinstance(e.label[1], ast.Compare)}
+        ok_dec = ok_dec and all(any(d.id in dom.get(tid, set()) for d in dec) for tid in tests)
         ctx.record("R8.1", ctx.key(f, "ttl checked before forwarding"), f.loc(), ok_dec and p is None and bool(send),
                    "every send_frame is preceded by decrement_ttl() and the ttl>=1 edge" if ok_dec and p is None else
                    "a hop can forward without lowering/checking the TTL", path_text(p))
@@ -179,6 +185,19 @@ def r8_3(ctx: Ctx) -> None:
         if not rec:
             continue
         n += 1
+        # a recursion justified as "once more after removing the stale entry" is a retry on the *same* subject: every argument is the
+        # caller's own parameter of that position / name, passed through unchanged
+        params_all = [a.arg for a in f.node.args.args[1:]]
+        for c in (rec if f.short in RECURSION_EXCEPTIONS else []):  # the flag-based functions are checked below; these have no flag
+            kwa = {k.arg: k.value for k in c.keywords if k.arg}
+            for i, a in enumerate(c.args):
+                if i < len(params_all):
+                    kwa[params_all[i]] = a
+            changed = [f"{p_}={unparse(v)[:40]}" for p_, v in kwa.items() if not (isinstance(v, ast.Constant) and isinstance(v.value, bool))
+                       and not (isinstance(v, ast.Name) and v.id == p_) and not p_.startswith("is_")]
+            ctx.record("R8.3", ctx.key(f, f"recursive call at `{unparse(c)[:50]}` retries the same subject"), f.loc(c), not changed,
+                       "non-flag arguments are passed through unchanged" if not changed else
+                       f"the recursive call replaces {changed}: the retry works on something other than what the caller was asked to handle")
         if f.short in RECURSION_EXCEPTIONS:
             ctx.ok("R8.3", ctx.key(f, "bounded recursion"), f.loc(), "justified exception: " + RECURSION_EXCEPTIONS[f.short], trivial=True)
             continue
@@ -226,6 +245,13 @@ def r8_5(ctx: Ctx) -> None:
     if len(upd) != 1:
         raise AnalysisError(f"R8.5: expected one `{best} = {rv}` update inside the loop")
     u = upd[0]
+    # every route is compared: the scan is not left early (a `break` after "the most specific possible" entry skips the metric
+    # comparison among entries of that same prefix length)
+    scan_loops = [x for x in ast.walk(f.node) if isinstance(x, ast.For) and "routes" in unparse(x.iter)]
+    early = [f"line {y.lineno}: {type(y).__name__.lower()}" for lp in scan_loops for b in lp.body for y in ast.walk(b) if isinstance(y, (ast.Break, ast.Return))]
+    ctx.record("R8.5", ctx.key(f, "the scan compares every route"), f.loc(), bool(scan_loops) and not early,
+               "no break / return inside the loop over self.routes" if not early else
+               "the route scan can stop before all routes were compared: a later route with the same prefix and a lower metric is ignored", early)
     # membership
     def member_edge(e) -> bool:
         if not (e.label and e.label[0] == "cond" and e.label[2] is True):
